@@ -95,6 +95,9 @@ def gen_tree(rng: Any, *, max_depth: int = 4, max_fanout: int = 4, max_nodes: in
         p_wait = 0.45 if wait_heavy else 0.2
         if r < p_wait and published:
             rid = rng.choice(published)
+            if wait_heavy and rng.random() < 0.15:
+                # a wait the component gives up after d virtual seconds (d = k + 0.25: no ties with the schedule)
+                return ["timed_wait", rid, rng.choice([0.25, 0.75, 1.25, 2.25])]
             return ["wait", rid, rng.randint(0, 2)]
         if r < p_wait + 0.08:
             # optional lookup of something that may or may not exist yet
@@ -243,6 +246,8 @@ def schedule(tree: dict[str, Any]) -> dict[str, Any]:
             v = before + st[1]
         elif st[0] == "wait":
             v = max(before, t_step(*pub_step[str(st[1])]))
+        elif st[0] == "timed_wait":
+            v = min(max(before, t_step(*pub_step[str(st[1])])), before + st[2])
         else:
             v = before
         memo[key] = v
@@ -461,6 +466,15 @@ class Run:
             got = await get_resource(RTYPES[r["type"]], r["name"])
             ok = (got is self.values.get(rid)) if r["kind"] != "factory" else (isinstance(got, Value) and got.rid == rid)
             self.log("wait-end", path, rid=rid, ok=bool(ok), got=repr(got))
+        elif kind == "timed_wait":
+            rid = str(st[1])
+            r = self.tree["resources"][rid]
+            got = None
+            self.log("timed-wait-begin", path, rid=rid, limit=st[2])
+            with anyio.move_on_after(st[2]) as scope:
+                got = await get_resource(RTYPES[r["type"]], r["name"])
+            ok = scope.cancelled_caught or ((got is self.values.get(rid)) if r["kind"] != "factory" else (isinstance(got, Value) and got.rid == rid))
+            self.log("timed-wait-end", path, rid=rid, timed_out=bool(scope.cancelled_caught), ok=bool(ok), got=repr(got))
         elif kind == "optional":
             t, n = st[1], st[2]
             seq_before = len(self.trace)
@@ -636,11 +650,11 @@ def check_success(run: Run, *, exact_schedule: bool = True) -> tuple[list[dict[s
             if e["kind"] == "step":
                 exp = sched["steps"][(e["actor"], e["phase"], e["idx"])]
                 inc("steps_timed")
-                if e["step"] == "wait":
+                if e["step"] in ("wait", "timed_wait"):
                     inc("wait_steps_timed")
                 if abs(e["vt"] - exp) > 1e-9:
                     late = "later" if e["vt"] > exp else "earlier"
-                    key = "wait-wrong-time" if e["step"] == "wait" else "start-schedule"
+                    key = "wait-wrong-time" if e["step"] in ("wait", "timed_wait") else "start-schedule"
                     bad(key, f"step {e['idx']} ({e['step']}) of {e['phase']}() of {e['actor']!r} completed at virtual time {e['vt']}, "
                              f"{late} than its longest-path time {exp}")
                     break
@@ -661,6 +675,12 @@ def check_success(run: Run, *, exact_schedule: bool = True) -> tuple[list[dict[s
                     inc("waits_that_blocked")
                 else:
                     inc("waits_already_published")
+        elif e["kind"] == "timed-wait-end":
+            inc("timed_waits")
+            if e["timed_out"]:
+                inc("timed_waits_abandoned")
+            elif not e["ok"]:
+                bad("wait-wrong-object", f"get_resource in {e['actor']!r} returned {e['got']} instead of the published resource r{e['rid']}")
         elif e["kind"] == "optional":
             inc("optional_lookups")
             if not e["immediate"]:
